@@ -18,6 +18,7 @@
 //
 
 #include "conv_interpolation.h"
+#include "cider_verif.h"
 #include "convolutions.h"
 #include "fblas.h"
 #include "sph_harm.h"
@@ -1303,6 +1304,7 @@ void contract_grad_terms_parallel(double *excsum, double *f_g, int natm, int a,
         const int ngrids_local = (ngrids + nthreads - 1) / nthreads;
         const int ig0 = ithread * ngrids_local;
         const int ig1 = MIN(ig0 + ngrids_local, ngrids);
+        CIDER_VERIF_EVENT("contract_grad_terms", nthreads, ithread, ig0, ig1, ngrids);
 #pragma omp single
         { tmp_priv = (double *)calloc(nthreads * natm, sizeof(double)); }
 #pragma omp barrier
